@@ -4,6 +4,7 @@ gen_run(rng, db, kind=None) -> (input_text, meta)   one RunString text: SOLUTION
                                                     REACTION_TEMPERATURE step] + the fixed SELECTED_OUTPUT / USER_PUNCH tail
 The compositions are drawn from the database's own element list (db = dbparse.DB)."""
 import math
+import re
 
 TAIL = """SELECTED_OUTPUT 1
  -reset false
@@ -350,6 +351,10 @@ def gen_synth_db(rng, base_text, db):
         out.append(f"  {formula} = {nc if nc > 1 else ''}{cs} + {na if na > 1 else ''}{as_}")
         out += _logk_options(rng, named, feats) or ["  log_k -1"]
         nph += 1
+    if rng.random() < 0.8:                       # entries of the base database defined AGAIN later in the same text
+        block, _ = redefinition_block(rng, db, feats)
+        out.append(block.rstrip("\n"))
+        feats.append("redef:in-database-text")
     out.append("END")
     return "\n".join(out) + "\n", {"species": made, "named": named, "features": feats}
 
@@ -395,3 +400,107 @@ def gen_run_extra(rng, db):
     meta["elements"] += m2["elements"]
     meta["kind"] = "redefinition"
     return text + TAIL + t2 + "END\nUSE solution 1\nREACTION_TEMPERATURE 1\n " + fmt(rng.uniform(0, 100)) + "\nEND\n", meta
+
+
+# ----------------------------------------------------------------------------- redefinitions of database entries
+def equation_text(sp, phase=False):
+    """the reaction of a dbparse Species / Phase written back as PHREEQC text (coefficients round-trip exactly)"""
+    def term(c, n):
+        return n if c == 1 else f"{c!r} {n}"
+    if phase:
+        lhs = [term(sp.head_coef, sp.formula)] + [term(-c, n) for n, c in sp.rxn if c < 0]
+        rhs = [term(c, n) for n, c in sp.rxn if c > 0]
+    else:
+        lhs = [term(c, n) for n, c in sp.rxn if c > 0]
+        rhs = [term(sp.head_coef, sp.name)] + [term(-c, n) for n, c in sp.rxn if c < 0]
+    return " + ".join(lhs) + " = " + " + ".join(rhs)
+
+
+def _k25(obj):
+    v = obj.logk.vector()
+    t = 298.15
+    return v[0] + v[2] + v[3] * t + v[4] / t + v[5] * math.log10(t) + v[6] / t / t + v[7] * t * t
+
+
+def redefinition_block(rng, db, feats, n=None):
+    """SOLUTION_SPECIES / PHASES / NAMED_EXPRESSIONS blocks that define entries of `db` AGAIN with a (mostly smaller) option set:
+    the later definition replaces the earlier one as a whole. Returns (text, elements involved)"""
+    rich = [sp for sp in db.species.values() if sp.rxn and not (len(sp.rxn) == 1 and sp.rxn[0][0] == sp.name)
+            and (any(a != 0 for a in sp.logk.analytic) or sp.logk.delta_h != 0) and not sp.mole_balance
+            and not any(m.species == sp.name for m in db.masters)]
+    out, elems = [], set()
+    if rich:
+        out.append(rng.choice(["SOLUTION_SPECIES", "solution_species", "Solution_Species"]))
+        for sp in rng.sample(rich, min(len(rich), n or rng.randint(1, 4))):
+            out.append(equation_text(sp))
+            k25 = _k25(sp)
+            form = rng.random()
+            if form < 0.45:
+                out.append(f"  log_k {fmt(k25 + rng.uniform(-0.3, 0.3))}")                 # every temperature option dropped
+                feats.append("redef:logk-only")
+            elif form < 0.7:
+                out.append(f"  log_k {fmt(k25 + rng.uniform(-0.3, 0.3))}")
+                out.append(f"  delta_h {fmt(rng.uniform(-40, 40))} {rng.choice(['kJ', 'kcal', ''])}")   # analytic dropped
+                feats.append("redef:logk+dh")
+            elif form < 0.85:
+                out.append(f"  -analytic {fmt(k25 + rng.uniform(-0.3, 0.3))} {fmt(rng.uniform(-1e-3, 1e-3))}")   # log_k/delta_h dropped
+                feats.append("redef:analytic-only")
+            else:
+                feats.append("redef:no-options")                                         # log K = 0 at every temperature
+            if sp.no_check:
+                out.append("  -no_check")
+            g = rng.random()
+            if g < 0.3 and sp.z != 0:
+                out.append(f"  -gamma {fmt(rng.uniform(3, 6))} {fmt(rng.uniform(0, 0.1))}")
+            elif g < 0.4 and sp.z != 0 and db.has_llnl_model:
+                out.append(f"  -llnl_gamma {fmt(rng.uniform(3, 6))}")
+            elems |= {e for e in sp.elements if e not in ("H", "O", "e")}
+    if db.phases and rng.random() < 0.6:
+        cand = [ph for ph in db.phases.values() if "(g)" not in ph.name and (any(a != 0 for a in ph.logk.analytic) or ph.logk.delta_h != 0)
+                and ph.head_coef == 1 and not ph.no_check]
+        if cand:
+            out.append("PHASES")
+            for ph in rng.sample(cand, min(len(cand), rng.randint(1, 3))):
+                out.append(ph.name)
+                out.append("  " + equation_text(ph, phase=True))
+                if rng.random() < 0.8:
+                    out.append(f"  log_k {fmt(_k25(ph) + rng.uniform(-0.3, 0.3))}")
+                if rng.random() < 0.3:
+                    out.append(f"  delta_h {fmt(rng.uniform(-40, 40))}")
+                feats.append("redef:phase")
+                elems |= {e for e in ph.elements if e not in ("H", "O", "e")}
+    if db.named and rng.random() < 0.5:
+        out.append("NAMED_EXPRESSIONS")
+        for k in rng.sample(sorted(db.named), min(len(db.named), 2)):
+            out.append(db.named[k].name)
+            out.append(f"  log_k {fmt(rng.uniform(-1, 1))}")
+            feats.append("redef:named")
+    return "\n".join(out) + "\n", sorted(elems)
+
+
+def gen_redefinition_history(rng, db):
+    """calls on ONE instance: [definitions (alone or together with a solution), solution at 25 C, solutions at other temperatures,
+    optionally a second redefinition and more solutions]. Returns (list of texts, meta)"""
+    feats = []
+    block, elems = redefinition_block(rng, db, feats)
+    prim, _ = elements_of(db)
+    focus = [e for e in elems if e in prim] or None
+    texts = []
+
+    def sol(temp=None):
+        t, m = gen_solution(rng, db, 1, focus=focus)
+        if temp is not None:
+            t = re.sub(r"(?m)^ temp .*$", f" temp {fmt(temp)}", t, count=1)
+        return t
+    if rng.random() < 0.7:
+        texts.append(block + "END\n")                       # definitions in a call of their own
+    else:
+        texts.append(block + sol() + TAIL)                   # definitions in front of the first calculation of the same call
+    texts.append(sol(25.0) + TAIL)
+    for _ in range(rng.randint(1, 2)):
+        texts.append(sol(rng.choice([rng.uniform(0, 100), 5.0, 60.0, 90.0])) + TAIL)
+    if rng.random() < 0.3:
+        block2, _ = redefinition_block(rng, db, feats, n=1)
+        texts.append(block2 + sol(rng.uniform(0, 100)) + TAIL)
+        feats.append("redef:second-redefinition")
+    return texts, {"kind": "redefinition-history", "features": feats}
